@@ -365,7 +365,15 @@ func checkOnce(t *T, prop func(*T)) (err *testError) {
 	if t.tbLog {
 		t.tb.Helper()
 	}
-	defer func() { err = panicToError(recover(), 3) }()
+	defer func() {
+		err = panicToError(recover(), 3)
+		// A non-fatal failure that is still pending here (Errorf followed by Skip, or Errorf called
+		// from a cleanup function) falsifies this test case; it must not be lost, and it must not
+		// leak into the next test case run on the same T.
+		if failed := t.resetFailed(); failed != "" && (err == nil || err.isInvalidData()) {
+			err = panicToError(failed, 2)
+		}
+	}()
 
 	defer t.cleanup()
 	prop(t)
@@ -785,6 +793,15 @@ func (t *T) fail(now bool, msg string) {
 	if now {
 		panic(t.failed)
 	}
+}
+
+func (t *T) resetFailed() stopTest {
+	t.mu.Lock()
+	defer t.mu.Unlock()
+
+	failed := t.failed
+	t.failed = ""
+	return failed
 }
 
 func (t *T) failOnError() {
